@@ -50,7 +50,7 @@ reg('C18', 'AIO+CHOICE',
 
 reg('C02', 'SEQ+ENUM',
     'bounded-exhaustive enumeration of registration histories (routes/suffixes/sinks/static routes, both orders) x requests, lockstep with a list model of the history',
-    'Every registration history within the bound (quick 3 431, thorough 66 818 histories over nested alphabets incl. all 32 method subsets, falsy resources, suffix resource '
+    'Every registration history within the bound (quick 3 716, thorough 83 004 histories over nested alphabets incl. all 32 method subsets, falsy resources, suffix resource '
     'kinds, 8 sink prefixes (incl. flag-dependent precompiled), static routes, rejected registrations) is built as a real WSGI and ASGI app under both sink_before_static_route values and '
     'queried with 7 methods x 14 boundary paths, after the last and after every registration; status, which responder/sink/file ran with which kwargs and '
     'the Allow multiset are compared with a dispatch table computed from the history.',
